@@ -250,7 +250,7 @@ impl Property for C17 {
             ctx.inconclusive.push(format!("glas binary not found at {} (run through ./check)", glas_bin()));
             return;
         }
-        let cases = ctx.tier.pick(400, 10_000);
+        let cases = ctx.tier.pick(1_500, 10_000);
         ctx.run_streams("c17-trees", cases, 700, |ctx, bytes| {
             if run_tree(ctx, bytes)? {
                 ctx.nontrivial(hash_bytes(bytes));
